@@ -19,8 +19,10 @@ RULE = (
     "invisible); distinct = distinct (direction, closure, grid) cases"
 )
 ASSUMPTIONS = [
-    "threshold 5 degrees against <= 1.8 degrees observed on resolved domains (DESIGN C08); the plain centroid is NOT used (periodic wrap-around bias)",
+    "threshold 5 degrees against <= 1.8 degrees observed on resolved domains (DESIGN C08) for the peak-region bearing",
+    "the centre of mass of the whole footprint is biased by the periodic images of the tail: loose bound of 15 degrees, default halo only (observed <= 9.0 on 800 default-halo runs of the unchanged tree, compact and elongated windows)",
 ]
+PLAIN_LIMIT = 15.0
 MIN_NONTRIVIAL = {"quick": 40, "thorough": 900}
 TIMEOUT = {"quick": 1500, "thorough": 7000}
 
@@ -36,6 +38,10 @@ def cases(tier, seed):
             i += 1
     for k in range(48 if tier == "quick" else 6000):
         out.append({"seed": seed, "idx": i, "kind": "e2e", "wd": None, "_cost": 8})
+        i += 1
+    # elongated windows with the default halo
+    for k in range(24 if tier == "quick" else 1200):
+        out.append({"seed": seed, "idx": i, "kind": "e2e", "wd": None, "elong": True, "_cost": 16})
         i += 1
     return out
 
@@ -120,6 +126,13 @@ def e2e(case):
     oblong = bool(rng.random() < 0.5)
     nx = int(rng.integers(18, 29)) * 2
     ny = int(rng.integers(18, 29)) * 2 if oblong else nx
+    elong = bool(case.get("elong"))
+    if elong:
+        # a clearly elongated window (a transect, a valley): aspect 3 .. 4.5, long side along x or y
+        oblong = True
+        short, aspect = int(rng.integers(15, 19)) * 2, float(rng.uniform(3.0, 4.5))
+        long_ = int(short * aspect / 2) * 2
+        nx, ny = (short, long_) if rng.random() < 0.5 else (long_, short)
     dx = float(zm * rng.uniform(0.7, 1.0))
     dy = float(zm * rng.uniform(0.7, 1.0)) if oblong else dx
     xmax, ymax = nx * dx, ny * dy
@@ -144,13 +157,25 @@ def e2e(case):
     else:
         met["z0"] = float(zm * 10 ** rng.uniform(-2.0, -1.1))
     halo = None if rng.random() < 0.6 else float(rng.uniform(0.5, 1.2) * max(xmax, ymax))
+    if elong:
+        halo = None
     nz = int(rng.integers(8, 21))
+    # every fourth case asks for several output levels (the measurement node among them, any order) or for the full column: the
+    # slice of the measurement node is the footprint
+    lev_kind = ["default", "default", "default", "output_levels", "default", "default", "default", "full_output"][case["idx"] % 8]
+    out_levels = None
+    if lev_kind == "output_levels":
+        out_levels = [int(i) for i in rng.permutation([nz, int(rng.integers(nz // 2, nz)), int(rng.integers(1, nz // 2))][: int(rng.integers(2, 4))])]
     raw = {"domain": {"nx": nx, "ny": ny, "xmax": xmax, "ymax": ymax, "nz": nz, "ref_lat": ref_lat, "ref_lon": ref_lon, "halo": halo,
                       "modes": [512, 512]},
            "towers": [{"name": "T", "lat": lat, "lon": lon, "z_m": zm}], "met": met,
            "solver": {"closure": closure, "footprint": True, "precision": str(rng.choice(["single", "double"]))}}
+    if out_levels is not None:
+        raw["domain"]["output_levels"] = out_levels
+    elif lev_kind == "full_output":
+        raw["domain"]["full_output"] = True
     desc = dict(wind_dir=wd, closure=closure, zm=zm, nx=nx, ny=ny, dx=dx, dy=dy, ws=ws, L=L, forcing=forcing, halo=halo, nz=nz,
-                ref=(ref_lat, ref_lon), precision=raw["solver"]["precision"])
+                ref=(ref_lat, ref_lon), precision=raw["solver"]["precision"], levels=out_levels or lev_kind)
     if case["idx"] % 5 == 2:
         # the window was first laid out around another origin (a kilometre or so away) and then moved, the documented way:
         # dataclasses.replace on the parsed configuration, with the same tower objects
@@ -233,6 +258,13 @@ def e2e(case):
             res = bldfm.run_bldfm_single(cfg, tw, met_index=0)
     f = np.asarray(res["flx"], dtype=float)
     X, Y = np.asarray(res["grid"][0]), np.asarray(res["grid"][1])
+    if lev_kind != "default":
+        # the slice of the measurement node (its height is the tower's)
+        kz = out_levels.index(nz) if out_levels is not None else nz
+        if f.ndim != 3 or f.shape[0] <= kz or abs(float(np.asarray(res["grid"][2])[kz].flat[0]) - zm) > 1e-9 * zm:
+            return {"evals": 1, "nontrivial": True, "sig": f"{case['idx']}", "violations": [
+                {"what": "slice_of_the_measurement_node_missing_or_mislabelled", "shape": f.shape, "levels": out_levels or "full_output", "case": desc}]}
+        f, X, Y = f[kz], X[kz], Y[kz]
     if f.shape != (ny, nx) or not np.all(np.isfinite(f)):
         return {"evals": 1, "nontrivial": True, "sig": f"{case['idx']}", "violations": [
             {"what": "footprint_not_finite_or_wrong_shape", "shape": f.shape, "case": desc}]}
@@ -254,7 +286,26 @@ def e2e(case):
     viol = []
     if err > 5.0:
         viol.append({"what": "footprint_not_upwind_of_tower", "bearing_deg": bearing, "wind_dir": wd, "error_deg": err, "peak_cells": ncell, "G": G, "case": desc})
+    # the centre of mass of the whole returned footprint (what the property names).  It is biased by the periodic images of the tail
+    # (DESIGN C08), so it only carries a loose bound - but a footprint whose tail re-enters beside the tower through a halo that is
+    # thinner than the window is long shows up here and not in the peak region
+    wpos = np.clip(f, 0.0, None)
+    err_all = None
+    if float(wpos.sum()) > 0:
+        b_all = math.degrees(math.atan2(float(np.sum(wpos * rx)), float(np.sum(wpos * ry)))) % 360.0
+        err_all = angdiff(b_all, wd)
+        # (judged with the default halo only: with a caller-chosen narrower halo the wrap-around bias is the caller's trade-off;
+        # calibration on the unchanged tree, 1169 runs: default halo <= 9.0 deg, explicit halos of 0.5-1.2 window lengths up to 15.4)
+        if halo is None and err_all > PLAIN_LIMIT:
+            viol.append({"what": "centre_of_mass_of_footprint_not_upwind_of_tower", "bearing_deg": b_all, "wind_dir": wd, "error_deg": err_all, "G": G, "case": desc})
     nsweep = 0
+    if sweep is not None and lev_kind != "default":
+        # the series carries the same level request: its slice of the measurement node
+        try:
+            sweep = (sweep[0], [dict(r_, flx=np.asarray(r_["flx"])[kz], grid=tuple(np.asarray(g_)[kz] for g_ in r_["grid"])) for r_ in sweep[1]])
+        except Exception as ex_:  # noqa
+            viol.append({"what": "slice_of_the_measurement_node_missing_or_mislabelled", "driver": "run_bldfm_timeseries", "exc": repr(ex_)[:200], "case": desc})
+            sweep = None
     if sweep is not None and len(sweep[0]) == 4:
         fl = np.asarray(sweep[1][-1]["flx"], dtype=float)
         e_sl = float(np.max(np.abs(fl - f))) / (float(np.max(np.abs(f))) or 1.0) if fl.shape == f.shape else float("inf")
@@ -280,7 +331,8 @@ def e2e(case):
                              "wind_dir": d_k, "error_deg": angdiff(bk, d_k), "directions": sweep[0], "case": desc})
     discr = min(angdiff(wd, 0.0), angdiff(wd, 180.0)) > 2.5
     b = {"met_values:int" if int_typed else "met_values:float": 1, f"closure:{closure}": 1, "oblong" if oblong else "square": 1, f"forcing:{forcing}": 1, "stable" if L > 0 else "unstable": 1,
-         f"halo:{'default' if halo is None else 'explicit'}": 1, f"octant:{int(wd // 45) % 8}": 1, f"prec:{desc['precision']}": 1}
+         f"halo:{'default' if halo is None else 'explicit'}": 1, f"levels:{lev_kind}": 1, "elongated" if elong else "compact": 1, f"octant:{int(wd // 45) % 8}": 1, f"prec:{desc['precision']}": 1}
     return {"evals": 1, "nontrivial": bool(discr), "sig": f"{wd:.3f}|{closure}|{nx}x{ny}|{case['idx']}", "buckets": b,
-            "resid": {"bearing_error_deg": err}, "counters": {"single_runs": 1, "peak_region_cells": ncell, "timeseries_steps_checked": nsweep}, "violations": viol,
+            "resid": {"bearing_error_deg": err, "centre_of_mass_bearing_error_deg_default_halo": err_all if halo is None else None,
+                      "centre_of_mass_bearing_error_deg_explicit_halo_not_judged": err_all if halo is not None else None}, "counters": {"single_runs": 1, "peak_region_cells": ncell, "timeseries_steps_checked": nsweep}, "violations": viol,
             "sample": dict(desc, bearing=bearing, error_deg=err, peak_cells=ncell, G=G)}
